@@ -4,14 +4,15 @@
 # tools/lab.sh run <patch.diff> <ID>... : apply patch in the lab's worktree, run the lab's quick checks, revert
 set -u
 LAB=${LAB:-/root/mutlab}
+SRC=${LAB_SRC:-/verif}
 case "${1:-}" in
 sync)
   mkdir -p $LAB
   [ -d $LAB/repo ] || git -C /repo worktree add -q --detach $LAB/repo HEAD
   git -C $LAB/repo checkout -q --detach $(git -C /repo rev-parse HEAD) && git -C $LAB/repo checkout -q -- .
-  rsync -a --delete --exclude target --exclude 'fuzz/target' --exclude 'miri/target' /verif/harness/ $LAB/harness/
-  rsync -a --delete /verif/vectors/ $LAB/vectors/; rsync -a --delete /verif/tools/ $LAB/tools/
-  cp /verif/check /verif/KNOWN_FINDINGS.txt /verif/MANIFEST.json $LAB/
+  rsync -a --delete --exclude target --exclude "fuzz/target" --exclude "miri/target" $SRC/harness/ $LAB/harness/
+  rsync -a --delete $SRC/vectors/ $LAB/vectors/; rsync -a --delete $SRC/tools/ $LAB/tools/
+  cp $SRC/check $SRC/KNOWN_FINDINGS.txt $SRC/MANIFEST.json $LAB/
   sed -i "s#path = \"/repo\"#path = \"$LAB/repo\"#" $LAB/harness/bpv/Cargo.toml $LAB/harness/miri/Cargo.toml
   echo "lab synced at $(git -C $LAB/repo rev-parse --short HEAD)"
   ;;
